@@ -435,27 +435,34 @@ def find_insert_line():
         src, first = inspect.getsourcelines(fn)
         hits = [k for k, l in enumerate(src) if '.insert(' in l and not l.strip().startswith('#')]
         bis = [k for k, l in enumerate(src) if 'bisect' in l]
+        import re
+        m = re.search(r'\.insert\(\s*(\w+)\s*,\s*\(\s*(\w+)\s*,\s*(\w+)\s*\)\s*\)', src[hits[0]]) \
+            if len(hits) == 1 else None
         if len(hits) != 1 or not bis or bis[0] >= hits[0]:
             _LINEGATE = (None, 'cannot locate a unique `.insert(` after `bisect` in _queue_event')
+        elif not m:
+            _LINEGATE = (None, 'the `.insert(` statement is not of the form insert(<index>, (<time>, <event>))')
         else:
-            _LINEGATE = (fn.__code__, first + hits[0])
+            _LINEGATE = (fn.__code__, first + hits[0], m.groups())
     except Exception as e:   # fail-soft
         _LINEGATE = (None, 'inspect failed: %r' % (e,))
     return _LINEGATE
 
 
 def make_tracer(ctl):
-    code, line = find_insert_line()
+    lg = find_insert_line()
+    code, line = lg[0], lg[1]
     if code is None:
         return None
+    n_idx, n_time, n_ev = lg[2]      # names of the local variables, read from the source line
 
     def local(frame, event, arg):
         if event == 'line' and frame.f_lineno == line and not ctl.free:
             loc = frame.f_locals
-            ev = loc.get('event')
-            ctl.rlog('A1', uid_of(ev), loc.get('time'), loc.get('position'))
+            ev = loc.get(n_ev)
+            ctl.rlog('A1', uid_of(ev), loc.get(n_time), loc.get(n_idx))
             ctl.gate('A2')
-            ctl.rlog('A2', uid_of(ev), loc.get('time'), loc.get('position'))
+            ctl.rlog('A2', uid_of(ev), loc.get(n_time), loc.get(n_idx))
         return local
 
     def tracer(frame, event, arg):
@@ -1067,7 +1074,8 @@ def main(tier, seed):
     n_corpus = len(cases)
     cases += enum_cases(320 if quick else 6000, rng)
     cases += [random_case(rng) for _ in range(200 if quick else 3000)]
-    code, line = find_insert_line()
+    lg = find_insert_line()
+    code, line = lg[0], lg[1]
     gate_note = ('sys.settrace line gate on default.py:%d (`queue.insert(` of _queue_event)' % line) if code \
         else 'line gate NOT installed (%s); fallback: gated list subclass for _external_queue' % line
     nproc = min(8, os.cpu_count() or 2)
@@ -1123,6 +1131,17 @@ def main(tier, seed):
                                  failing_clauses=clauses(hm.get(i, 0)), untranslatable=[repr(b) for b in h['bad'][:5]],
                                  history_tail=h['items'][-60:], coq_log=out[-800:] if rc != 0 else None),
                             tag='stress%d' % i)
+    coqchk = None
+    if not quick:
+        try:
+            rc_k, out_k = run(['timeout', '900', 'coqchk', '-silent', '-o'] + COQ_FLAGS + ['SismicProps.C20_Props'],
+                              1000, cwd=COQ)
+            coqchk = dict(rc=rc_k, axioms_none='* Axioms: <none>' in out_k, tail=out_k[-400:])
+            if rc_k != 0 or not coqchk['axioms_none']:
+                info['ok'] = False
+                info['props_log_tail'] = 'coqchk: ' + out_k[-1500:]
+        except Exception as e:   # fail-soft: recorded
+            coqchk = dict(error=repr(e))
     proof_ok = bool(info.get('build_ok') and info.get('ok') and not info.get('forbidden_tokens')
                     and not info.get('axioms') and not info['own_forbidden_tokens'] and ok_c)
     if not proof_ok and n_viol == 0:
@@ -1170,6 +1189,7 @@ def main(tier, seed):
         corpus=corpus_status, stress_runs=stress, mismatching_cases=len(masks),
         timings=dict(replay_s=round(t_replay, 1), coq_s=round(t_coq, 1)),
         source_blobs=repo_blob_ids(['sismic/runner/runner.py', 'sismic/interpreter/default.py']),
+        coqchk=coqchk,
         proof_info={k: info.get(k) for k in ('build_ok', 'ok', 'closed', 'axioms', 'forbidden_tokens',
                                              'own_forbidden_tokens', 'build_log_tail', 'props_log_tail')},
     )
